@@ -86,6 +86,7 @@ func implDecodeDirect(name string, data []byte) (reflect.Value, error) {
 	}
 	d := data
 	out := m.Call([]reflect.Value{reflect.ValueOf(&d)})
+	noteInputSlice(d, data)
 	if e := out[0].Interface(); e != nil {
 		return p, e.(error)
 	}
@@ -104,6 +105,21 @@ func implEncodeDirect(name string, p reflect.Value, buf *bytes.Buffer) error {
 	return nil
 }
 
+// The decoders take the input as *[]byte. lastInputSliceChanged records whether the caller's slice variable itself
+// (start, length) was different after the last decode call — the input the caller holds is then no longer the input
+// it passed, whatever the octets in memory are.
+var lastInputSliceChanged string
+
+func noteInputSlice(after, before []byte) {
+	lastInputSliceChanged = ""
+	switch {
+	case len(after) != len(before):
+		lastInputSliceChanged = fmt.Sprintf("the caller's slice had %d octets before the call and has %d after it", len(before), len(after))
+	case len(after) > 0 && &after[0] != &before[0]:
+		lastInputSliceChanged = "the caller's slice points elsewhere after the call"
+	}
+}
+
 // implDecodeEntry runs one of the three public decode entry points.
 func implDecodeEntry(entry string, data []byte) (*nas.Message, error) {
 	m := nas.NewMessage()
@@ -119,6 +135,7 @@ func implDecodeEntry(entry string, data []byte) (*nas.Message, error) {
 	default:
 		panic("bad entry " + entry)
 	}
+	noteInputSlice(d, data)
 	return m, err
 }
 
